@@ -28,4 +28,19 @@ PROPS = {
             "diplomat_alloc/diplomat_free are not modelled (std allocator pass-through)",
         ],
     },
+    "C12": {
+        "tables": ["RuntimeTypes"],
+        "rule": "random write histories: caller-supplied writers (initial capacity 0..40, optional pre-filled text, 0..12 chunks incl. empty and multi-byte UTF-8, scripted grow answers refuse / grant requested+extra), fixed-buffer writers (size 1..65), Rust-owned writers; distinct = distinct protocol lines; non-trivial = at least one chunk",
+        "trusted_base": [
+            KERNEL, HARNESS,
+            "translator: field lists of DiplomatWrite read from runtime/src/write.rs (syn) and capi.h.jinja (small C declaration parser)",
+            "modelled not verified: fmt::Write call protocol, ptr::copy_nonoverlapping as per-byte stores, Vec::reserve as allocate-copy (capacity of Rust-owned buffers is not compared)",
+            "C++ WriteFromString adaptor: tied by exact text of _grow/_flush/WriteFromString in the generated diplomat_runtime.hpp; std::string::resize semantics assumed (A-cpp)",
+        ],
+        "assumptions": [
+            "grow callbacks honour the documented contract (new capacity >= requested, old contents copied); answers violating it are outside the property",
+            "fixed-buffer writers are created with size >= 1 (size 0 underflows in the code; excluded by the property's quantifier)",
+            "real allocator failure inside Vec::reserve aborts and cannot be scripted",
+        ],
+    },
 }
